@@ -1507,7 +1507,17 @@ class Scheduler:
                     [(args, kwargs), default_kwargs] = eval_args
                     return self._exec_job(job, (args, {**default_kwargs, **kwargs}))
 
-                promise = Promise.all([args_promise, default_kwargs_promise]).then(args_then)
+                def args_fail(error):
+                    # The arguments could not be evaluated, so the job never starts. Settle it
+                    # as failed instead of leaving it pending in the scheduler forever.
+                    job._status = "FAILED"
+                    job.reject(error)
+                    self._finalize_job(job)
+                    raise error
+
+                promise = Promise.all([args_promise, default_kwargs_promise]).then(
+                    args_then, args_fail
+                )
 
         elif isinstance(expr, SimpleExpression):
             # Simple Expressions can be executed synchronously.
